@@ -168,6 +168,13 @@ class World:
                     cid = self.get_cid((d, ix))
                     if cid not in self.data[d].components:
                         self.data[d].add_component(np.array(op[3:], dtype=np.int64), cid)
+            elif k == "addx":
+                # dataset d stores a component under a ComponentID that belongs to dataset d2
+                d, d2, ix = op[1], op[2], op[3]
+                if d in self.data:
+                    cid = self.get_cid((d2, ix))
+                    if cid not in self.data[d].components:
+                        self.data[d].add_component(np.array(op[4:], dtype=np.int64), cid)
             elif k == "remc":
                 d, ix = op[1], op[2]
                 if d in self.data:
@@ -265,6 +272,8 @@ def op_cids(op):
         return [(op[1], comp[0]) for comp in op[2]]
     if k in ("addc", "remc"):
         return [(op[1], op[2])]
+    if k == "addx":
+        return [(op[2], op[3])]
     if k == "addd":
         return [(op[1], op[4])] + [tuple(c) for c in op[3]]
     if k == "upid":
@@ -626,6 +635,40 @@ class Structured(HistBase):
             return link_same(ids, f, t)
         return link_twoway(ids, f, t, 2, k, 3, -k)
 
+
+
+class Shared(HistBase):
+    """A dataset stores a component under a ComponentID owned by ANOTHER dataset (`add_component(arr,
+    other.id[...])`, same values) and reaches foreign attributes only through links on that shared id:
+    `cid.parent` is not 'the dataset that has the attribute'.  No dataset removal (the histories are
+    outside `runWf`; `manager_inv_noRemove_unconditional` is the theorem that covers them)."""
+    name = "shared"
+    exhaustive = True
+    budget_share = 0.1
+    mk = Structured.mk
+
+    def cases(self, tier, rng):
+        n = 2
+        for when in ("before", "after", "afterlink"):
+            for kind in ("ow", "tw", "id", "same", "twc"):
+                for chain in (1, 2):
+                    for user_owns in ([2], [2, 3]):
+                        ids = Ids()
+                        layout = {0: [1], 1: [1], 2: [1], 3: list(user_owns)}
+                        news = [new_op(d, ixs, n) for d, ixs in sorted(layout.items())]
+                        apps = [["app", d] for d in (3, 0, 1, 2)]
+                        share = ["addx", 3, 0, 1] + base_values(0, 1, n)
+                        links = [["addl", self.mk(ids, kind, (k, 1), (k + 1, 1), k)] for k in range(chain)]
+                        if when == "before":
+                            ops = news + [share] + apps + links
+                        elif when == "after":
+                            ops = news + apps + [share] + links
+                        else:
+                            ops = news + apps + links + [share]
+                        yield [2, ops]
+                        E = links[0][1]
+                        yield [2, ops + [["reml", E[1] if E[0] == "c" else E[1][0]]]]
+                        yield [2, ops + [["remc", 0, 1]]]
 
 
 def addd(ids, d, froms, ix, coeffs, off):
@@ -1006,7 +1049,7 @@ PROP = Property(
               "C03.spec_local_implies_composed", "C03.specDepth_reachable", "C03.manager_inv", "C03.manager_inv_noRemove_unconditional", "C03.manager_reads", "C03.derived_reads_internal",
               "C03.selection_via_links", "C03.manager_no_dangling", "C03.removal_forgets",
               "C03.list_op_raising_midway_synced"],
-    families=[Structured(), Shapes(), Derived(), Histories()],
+    families=[Structured(), Shapes(), Derived(), Shared(), Histories()],
     trusted_base=["CPython set iteration order is deterministic for two sets built the same way in one process "
                   "(the observed order of `_links | _inverse_links` is fed to the model's literal loop; the Spec does not depend on it)",
                   "numpy integer/float arithmetic on small integers is exact"],
